@@ -53,3 +53,14 @@ CLAIMS["C01"] = (
     "Trusted: mc/ref/cert.py, mc/ref/loss.py, mc/ref/pen.py (self-tested), numpy. Bounded: n<=6, p<=5, listed alphabets; "
     "non-convex fixed-point residuals carry the 1e-7 accuracy of the brute-force reference prox.",
     "DESIGN.md §4 C01")
+CLAIMS["C03"] = (
+    "model_checking",
+    "explicit-state exploration of solver trajectories: every stopping point (max_iter, max_epochs/max_pn_iter) of a budget rectangle is a state reached by a real solve, prefix edges are validated then checked for descent",
+    "For every descent solver x datafit x penalty domain (dense and CSC), designs x alphas x knob variants x cold/warm starts, all "
+    "stopping points of the rectangle outer budget 0..4 x inner budget {1,2,6,7,8,14,default} (finer and larger in thorough) "
+    "are executed; the true objective recomputed from the returned coefficients must be non-increasing along every validated "
+    "prefix edge and never above the start. Budgets straddle both Anderson extrapolation periods. IterativeReweightedL1 "
+    "histories for L0_5, L2_3, log-sum with 1..6 reweightings must be non-increasing and end at the true objective.",
+    "Trusted: mc/ref objective. Prefix edges (k,e)->(k+1,e) are validated by obj_out prefix equality; (1,e)->(1,e+1) rely "
+    "on determinism (RNG seeded from the data only). Non-convex penalties only in their well-posed step range.",
+    "DESIGN.md §4 C03")
